@@ -170,7 +170,11 @@ def keys_cases(res, rng, tier, d):
             for pf in ["pkcs1", "pkcs8"]:
                 for pubf in ["default", "pkcs1"]:
                     for rep in range(n):
-                        prefix = os.path.join(d, f"k_{ktype}_{enc}_{pf}_{pubf}_{rep}")
+                        # the prefix is a prefix, whatever it contains: dots ("app.v2", "key.pem"), blanks, several dots
+                        stem = [f"k_{ktype}_{enc}_{pf}_{pubf}_{rep}", f"k.{ktype}_{enc}.{pf}_{pubf}.v{rep}", f"fw-1.2.{rep} {ktype}_{enc}_{pf}_{pubf}", f"{ktype}.{enc}.{pf}.{pubf}.{rep}.pem"][
+                            (len(ktype) + len(enc) * 3 + len(pf) + len(pubf) + rep) % 4]
+                        prefix = os.path.join(d, stem)
+                        res.count("keys:prefix-with-dot:" + str("." in stem))
                         privp, pubp = f"{prefix}_priv.{enc}", f"{prefix}_pub.{enc}"
                         res.case(["keys", ktype, enc, pf, pubf, rep], nontrivial=True)
                         preexisting = (rep + len(ktype) + len(pf)) % 2 == 0
